@@ -1,4 +1,3 @@
-import ArrModel.C08
 import ArrProofs.Lemmas.C08Reduce
 /-!
 # C08 — axis-wise reductions and scans equal the 1-D operation on every lane
@@ -178,5 +177,31 @@ theorem axis_out_of_range (a : Arr α) (zero : α) (zb : β) (ax : Int) (h : nor
     a.countAxis zero zb (some ax) kd g1 = .err .AxisOutOfBounds ∧
     a.scanAxis zero zb (some ax) f1 = .err .AxisOutOfBounds := by
   simp only [Arr.reduceAxis, Arr.countAxis, Arr.scanAxis, applyAlongAxis_axis_err _ _ _ _ _ h, Res.bind_err, and_self]
+
+/-! ### non-vacuity: a `[2,3,2,2]` array, axis 1 (a middle axis of a rank-4 array — the case the pinned tree got wrong) -/
+example : sample.WF ∧ 0 ∉ sample.shape ∧ normalizeAxis sample.ndim 1 < sample.ndim ∧ normalizeAxis sample.ndim (-3) = 1 := by decide
+-- the hypotheses on the 1-D bodies are satisfiable (sum returns one element, cumsum as many as the lane has)
+example : ∀ lane : List Nat, ∃ y, sumBody (Arr.flat lane) = .ok y ∧ y.elems.length = 1 := fun _ => ⟨_, rfl, rfl⟩
+example : ∀ lane : List Nat, ∃ y, cumsumBody (Arr.flat lane) = .ok y ∧ y.elems.length = lane.length :=
+  fun _ => ⟨_, rfl, by simp [Arr.flat]⟩
+example : ∀ (lane : List Nat) kd, ∃ y, countBody (Arr.flat lane) kd = .ok y ∧ y.elems.length = 1 := by
+  intro lane kd
+  by_cases h : kd = some true
+  · exact ⟨_, by simp [countBody, keepdimsTail, h, Arr.flat, Arr.ndim, Arr.atleast, Arr.atleast1d], rfl⟩
+  · exact ⟨_, by simp [countBody, keepdimsTail, h], rfl⟩
+-- so the theorems apply to the sample:
+example := reduce_spec sample 0 0 1 sumBody (by decide) (by decide) (by decide) (fun _ _ => ⟨_, rfl, rfl⟩)
+example := scan_spec sample 0 0 (-3) cumsumBody (by decide) (by decide) (by decide) (fun _ _ => ⟨_, rfl, by simp [Arr.flat]⟩)
+-- and what they describe, computed by the model:
+example : laneOf sample 1 [1, 0, 1, 0] = [14, 18, 22] := by decide +kernel
+example : sample.reduceAxis 0 0 (some 1) sumBody = .ok ⟨[12, 15, 18, 21, 48, 51, 54, 57], [2, 2, 2]⟩ := by decide +kernel
+example : sample.reduceAxis 0 0 (some (-3)) sumBody = sample.reduceAxis 0 0 (some 1) sumBody := by decide +kernel
+example : sample.scanAxis 0 0 (some 1) cumsumBody =
+    .ok ⟨[0, 1, 2, 3, 4, 6, 8, 10, 12, 15, 18, 21, 12, 13, 14, 15, 28, 30, 32, 34, 48, 51, 54, 57], [2, 3, 2, 2]⟩ := by decide +kernel
+example : sample.countAxis 0 0 (some 1) (some true) countBody = .ok ⟨[2, 3, 3, 3, 3, 3, 3, 3], [2, 1, 2, 2]⟩ := by decide +kernel
+example : sample.countAxis 0 0 (some 1) none countBody = .ok ⟨[2, 3, 3, 3, 3, 3, 3, 3], [2, 2, 2]⟩ := by decide +kernel
+example : (⟨[5, 6, 7], [3]⟩ : Arr Nat).reduceAxis 0 0 (some 0) sumBody = .ok ⟨[18], [1]⟩ := by decide +kernel
+example : sample.reduceAxis 0 0 (some 4) sumBody = .err .AxisOutOfBounds ∧
+    sample.reduceAxis 0 0 (some (-5)) sumBody = .err .AxisOutOfBounds := by decide +kernel
 
 end ArrModel.C08
